@@ -8,21 +8,24 @@ from . import lang as L
 from .scenario import Scenario, Outcome, Query
 from .corpus import rust_debug, parse_dump
 from .interp import OverflowBound
+from .sym import *
 
 SOLVER_TIMEOUT_MS = 120_000
 
 
 def solve(solver, cond, timeout_ms=SOLVER_TIMEOUT_MS):
-    if is_const(cond):
-        return ("sat" if cond else "unsat"), None, 0.0
+    """ask z3 for the verdict on a (canonical) condition; returns (verdict, assignment|None, seconds)"""
     t0 = time.time()
-    solver.push()
-    solver.set("timeout", timeout_ms)
-    solver.add(z(cond))
-    r = solver.check()
-    m = solver.model() if r == z3.sat else None
-    solver.pop()
-    return str(r), m, time.time() - t0
+    s = z3.Solver()
+    s.set("timeout", timeout_ms)
+    s.add(z(cond))
+    r = s.check()
+    asg = model_assignment(s.model()) if r == z3.sat else None
+    verdict = str(r)
+    # canonical form cross-check: a BDD is unsatisfiable iff it is the constant False
+    if (verdict == "unsat") != (cond is False) and verdict in ("sat", "unsat"):
+        raise Unsupported("z3 verdict %s disagrees with the canonical form of the condition" % verdict)
+    return verdict, asg, time.time() - t0
 
 
 def native_rows(dump, prog):
@@ -74,12 +77,18 @@ def compare_native(prog, sc, dumps, rets, expected, dbA, dbB, kind_hint):
         full_check(0, "after first run")
         full_check(1, "after second run")
     elif k == "timeout":
-        for i in range(2):
-            if i < len(rets) and rets[i]:
-                full_check(i, "run_timeout #%d returned true" % (i + 1))
+        # mirror of the symbolic queries: only states reached through an interrupted first call count
+        r1 = rets[0] if rets else True
+        r2 = rets[1] if len(rets) > 1 else True
+        if r1:
+            full_check(0, "run_timeout #1 returned true")
+        else:
+            sound_check(0, "run_timeout #1 returned false")
+            if r2:
+                full_check(1, "resumed run_timeout returned true")
             else:
-                sound_check(i, "run_timeout #%d returned false" % (i + 1))
-        full_check(2, "after resuming run()")
+                sound_check(1, "resumed run_timeout returned false")
+                full_check(2, "run() after two interrupted calls")
     return problems
 
 
@@ -96,6 +105,15 @@ def check_program(corpus, mod_ast, prog, sc, rng, V=3, features=None):
     except Unsupported as e:
         out.status, out.detail = "inconclusive", "unsupported: " + str(e)
         return out
+    except BddBlowup:
+        cap = getattr(sc, "input_cap", 72)
+        if cap > 20:
+            sc.input_cap = cap // 2
+            o2 = check_program(corpus, mod_ast, prog, sc, rng, V, features)
+            o2.stats["input_cap_lowered_to"] = sc.input_cap
+            return o2
+        out.status, out.detail = "inconclusive", "canonical forms exceed the node budget even with %d input variables" % cap
+        return out
     except OverflowBound:
         if sc.maxm < 4:
             sc.maxm += 1
@@ -104,9 +122,10 @@ def check_program(corpus, mod_ast, prog, sc, rng, V=3, features=None):
             return o2
         out.status, out.detail = "inconclusive", "row multiplicity exceeds the encoding bound MAXM=%d" % sc.maxm
         return out
+    out.stats.update(manager_stats())
     out.stats.update({"steps": ex.ctx.steps, "loop_iters": ex.ctx.loop_iters, "unroll_solver_calls": ex.ctx.solver_calls,
                       "unroll_solver_s": round(ex.ctx.solver_time, 2), "oracle_rounds": sc.ref_stats["rounds"],
-                      "input_vars": len(sc.A.vars) + len(sc.A.vars2) + sum(1 + len(v[1]) for v in sc.A.lat.values()) + (len(sc.B.vars) if sc.B else 0),
+                      "input_vars": sc.A.nvars() + (sc.B.nvars() if sc.B else 0),
                       "deadline_vars": len(ex.ctx.deadlines)})
     out.queries = qs
     solver = sc.solver
@@ -114,11 +133,7 @@ def check_program(corpus, mod_ast, prog, sc, rng, V=3, features=None):
     fire = sc.ref_stats.get("rule_fire", {})
     fireable = 0
     for i, cnd in fire.items():
-        if is_const(cnd):
-            fireable += 1 if cnd else 0
-        else:
-            v, _m, _t = solve(solver, cnd, 20_000)
-            fireable += 1 if v == "sat" else 0
+        fireable += 1 if cnd is not False else 0
     out.stats["rules_fireable"] = [fireable, len(fire)]
     if sc.B is not None:
         pass  # constraints of B were added during execute
@@ -140,7 +155,7 @@ def check_program(corpus, mod_ast, prog, sc, rng, V=3, features=None):
             out.status, out.detail = "inconclusive", "row multiplicity exceeds the encoding bound MAXM=%d" % sc.maxm
             return out
         # counterexample: replay against the real build
-        dbA, dbB, ks = sc.concrete_dbs(model)
+        dbA, dbB, ks = sc.concrete_dbs(model)  # model = assignment {var: bool}
         lines = sc.script_lines(prog, dbA, dbB, ks)
         rec = replay(corpus, prog, sc, lines, dbA, dbB, q.kind)
         rec["query"] = q.name
@@ -200,18 +215,11 @@ def validate(corpus, prog, sc, rng, V):
     outs = corpus.run_native([(prog.name, sc.script_lines(prog, a, b, ks)) for a, b, ks in jobs])
     ok = 0
     for (dbA, dbB, ks), o in zip(jobs, outs):
-        cs = sc.A.pin(dbA) + (sc.B.pin(dbB) if sc.B is not None else [])
+        asg = sc.A.pin(dbA)
+        if sc.B is not None:
+            asg.update(sc.B.pin(dbB))
         if sc.kind == "timeout":
-            cs += pin_deadlines(sc, ks)
-        s = sc.solver
-        s.push()
-        s.add(*cs)
-        r = s.check()
-        if r != z3.sat:
-            s.pop()
-            return ok, "pinned database unsatisfiable (%s)" % r
-        m = s.model()
-        s.pop()
+            sc.pin_deadlines(asg, ks)
         if o.strip() == "PANIC":
             return ok, "native run panicked on a validation database %s" % dbA
         dumps, rets = parse_dump(o)
@@ -224,15 +232,14 @@ def validate(corpus, prog, sc, rng, V):
                 if r.lattice:
                     for key, slots in ob[rn].items():
                         for _, e, valts in slots:
-                            if z3.is_true(m.eval(z(e), model_completion=True)):
+                            if eval_b(e, asg):
                                 for c, v in valts:
-                                    if z3.is_true(m.eval(z(c), model_completion=True)):
+                                    if eval_b(c, asg):
                                         rows.append(rust_debug(tuple(key) + (v,)))
                 else:
-                    for t, (p1, p2) in ob[rn].items():
-                        if z3.is_true(m.eval(z(p1), model_completion=True)):
-                            rows.append(rust_debug(t))
-                            if z3.is_true(m.eval(z(p2), model_completion=True)):
+                    for t, cnt in ob[rn].items():
+                        for lvl in cnt[2]:
+                            if eval_b(lvl, asg):
                                 rows.append(rust_debug(t))
                 model_rows[rn] = sorted(rows)
             nat = native_rows(dump, prog)
@@ -243,29 +250,9 @@ def validate(corpus, prog, sc, rng, V):
             for i, alts in enumerate(sc.ex.rets):
                 mv = None
                 for c, v in alts:
-                    if z3.is_true(m.eval(z(c), model_completion=True)):
+                    if eval_b(c, asg):
                         mv = v
                 if i < len(rets) and mv != rets[i]:
                     return ok, "run_timeout #%d returned %s natively but %s in the encoding (k=%s)" % (i + 1, rets[i], mv, ks)
         ok += 1
     return ok, None
-
-
-def pin_deadlines(sc, ks):
-    """constraints making the k-th *reached* deadline check of each call fire (k=0: none fires)"""
-    cs = []
-    ctx = sc.ex.ctx
-    for call in range(2):
-        k = ks[call]
-        dl = [d for d in ctx.deadline_info if d[2] == call]
-        # number of reached checks before each
-        cnt = 0
-        for dvar, reach, _ in dl:
-            reached_before = cnt  # symbolic count
-            cnt = cnt + z3.If(z(reach), 1, 0)
-            if k == 0:
-                cs.append(z3.Not(dvar))
-            else:
-                # dvar fires iff it is reached and it is the k-th reached check
-                cs.append(dvar == z3.And(z(reach), cnt == k))
-    return cs
